@@ -221,7 +221,7 @@ def pair_obligations(d):
     return obs
 
 
-def run_all(rep, level_tag='P'):
+def run_all(rep, level_tag='P', only=None):
     """discharge every obligation for d = 2, 3 on the current tree; add Ob entries to rep"""
     from vf.common import Ob, Undecided
     import traceback
@@ -237,7 +237,8 @@ def run_all(rep, level_tag='P'):
     rep.extra['symx_rewrites_astype_int'] = {'crystal.py': cr.__sx_rewrites__, 'crystalStars.py': st.__sx_rewrites__, 'cluster.py': cl.__sx_rewrites__}
     import multiprocessing as mp
     # (modules are loaded once here; the forked workers inherit them)
-    tasks = [(d, gi, k) for d in (2, 3) for gi, grp in enumerate((obligations(d), pair_obligations(d))) for k in range(len(grp))]
+    tasks = [(d, gi, k) for d in (2, 3) for gi, grp in enumerate((obligations(d), pair_obligations(d))) for k in range(len(grp))
+             if only is None or any(grp[k][0].startswith(o) for o in only)]
     with mp.get_context('fork').Pool(min(16, len(tasks))) as pool:
         res = pool.map(_one, tasks, chunksize=1)
     for (nm, status, secs, detail, wit, fq) in res:
